@@ -139,6 +139,9 @@ def known_match(entry, f):
         return False
     if "op" in m and not re.fullmatch(m["op"], f.get("op", "")):
         return False
+    if "detail" in m and not re.search(m["detail"], f.get("raw", "")):
+        # optional: a regex the whole oracle line has to contain (e.g. the error variant of the failing call)
+        return False
     if "taint" in m:
         if not re.search(m["taint"], f.get("taint", "-")):
             return False
